@@ -104,6 +104,24 @@ def dense_src(rng):
     return {"kind": "cfg_rules", "rules": [list(r) for r in rules]}
 
 
+def tall_src(rng):
+    """HEIGHT versus YIELD: a variable with a flat alternative of long yield (U -> PP, P -> XX, X -> a^m: derivation
+    height 3, yield 4m) and a deep alternative of short yield (U -> aT, T -> aV, ..., -> aa: height d + 1, yield d + 2).
+    Anything that estimates shortest yields from the first COMPLETED derivation is wrong from n = d + 3 on"""
+    m = rng.choice([2, 3])
+    d = rng.choice([3, 4])
+    c = rng.choice(["a", "a", "b"])
+    chain = list("TVWY"[:d])
+    rules = [("U", "PP"), ("U", "a" + chain[0]), ("P", "XX"), ("X", "a" * m)]
+    for x, y in zip(chain, chain[1:]):
+        rules.append((x, "a" + y))
+    rules.append((chain[-1], "aa"))
+    if rng.random() < 0.3:
+        rules.append(("U", "XXX"))
+    rng.shuffle(rules)
+    return {"kind": "cfg_rules", "rules": [["S", c + "U"]] + [list(r) for r in rules]}, d
+
+
 def eps_as_terminal(src):
     """the same grammar with the terminal b replaced by the GLYPH ε used as an ordinary terminal; the grammar's
     epsilon symbol is '_' (a grammar may use any symbol as its epsilon)"""
